@@ -650,6 +650,14 @@ func genC09Scenario(c *Ctx, r *rand.Rand) *c09Scenario {
 			f.How = "changed-ranged"
 			f.Buf, f.BufS = pool.journal(r, oi, 2+r.IntN(4))
 		}
+		if f.open() && r.IntN(4) == 0 {
+			// an unsaved edit that adds no name and moves no transaction above it: a comment or
+			// blank line typed in front of an entry (often below the last transaction, in front of
+			// declarations).  Every symbol keeps its text; the occurrences below move down a line.
+			if buf, spans, ok := c09NeutralEdit(r, f.Disk, f.DiskS); ok {
+				f.How, f.Buf, f.BufS = "changed-neutral", buf, spans
+			}
+		}
 		sc.Files = append(sc.Files, f)
 	}
 	anyOpen := false
@@ -667,6 +675,49 @@ func genC09Scenario(c *Ctx, r *rand.Rand) *c09Scenario {
 		c.Count("file." + f.How)
 	}
 	return sc
+}
+
+// c09NeutralEdit inserts one comment or blank line in front of a line that starts an entry
+// (column 1, not blank) and moves the spans below it down by one line.
+func c09NeutralEdit(r *rand.Rand, disk string, spans []c09Span) (string, []c09Span, bool) {
+	lines := strings.SplitAfter(disk, "\n")
+	var cand []int
+	lastTx := -1
+	for i, l := range lines {
+		if l == "" || l[0] == ' ' || l[0] == '\t' || l[0] == '\n' || l[0] == '\r' {
+			continue
+		}
+		cand = append(cand, i)
+		if l[0] >= '0' && l[0] <= '9' {
+			lastTx = i
+		}
+	}
+	if len(cand) == 0 {
+		return "", nil, false
+	}
+	p := cand[r.IntN(len(cand))]
+	if r.IntN(2) == 0 {
+		// below the last transaction: nothing the workspace indexes by position moves
+		var below []int
+		for _, i := range cand {
+			if i > lastTx {
+				below = append(below, i)
+			}
+		}
+		if len(below) > 0 {
+			p = below[r.IntN(len(below))]
+		}
+	}
+	ins := pick(r, []string{"; note\n", "\n", "; list of accounts\n", "; k: v\n"})
+	buf := strings.Join(lines[:p], "") + ins + strings.Join(lines[p:], "")
+	out := make([]c09Span, len(spans))
+	for i, s := range spans {
+		if s.Line >= p {
+			s.Line++
+		}
+		out[i] = s
+	}
+	return buf, out, true
 }
 
 // ---------------------------------------------------------------- running a session
@@ -747,7 +798,7 @@ func c09Start(c *Ctx, sc *c09Scenario) *c09Session {
 		}
 		u := s.uri(f.Path)
 		first := f.Buf
-		if f.How == "changed" || f.How == "changed-ranged" {
+		if f.How == "changed" || f.How == "changed-ranged" || f.How == "changed-neutral" {
 			first = f.Disk
 		}
 		_ = s.srv.DidOpen(s.ctx, &protocol.DidOpenTextDocumentParams{
@@ -759,6 +810,27 @@ func c09Start(c *Ctx, sc *c09Scenario) *c09Session {
 				TextDocument:   protocol.VersionedTextDocumentIdentifier{TextDocumentIdentifier: protocol.TextDocumentIdentifier{URI: u}, Version: 2},
 				ContentChanges: []protocol.TextDocumentContentChangeEvent{{Text: f.Buf}}})
 			s.cl.wait()
+		case "changed-neutral":
+			// the one inserted line, as the ranged insertion an editor sends
+			dl, bl := strings.SplitAfter(f.Disk, "\n"), strings.SplitAfter(f.Buf, "\n")
+			p := 0
+			for p < len(dl) && p < len(bl) && dl[p] == bl[p] {
+				p++
+			}
+			ch := protocol.TextDocumentContentChangeEvent{
+				Range: protocol.Range{Start: protocol.Position{Line: uint32(p), Character: 0}, End: protocol.Position{Line: uint32(p), Character: 0}},
+				Text:  bl[p]}
+			if p == 0 {
+				// the typed API cannot tell a zero range from an absent one (C01): send the whole text
+				ch = protocol.TextDocumentContentChangeEvent{Text: f.Buf}
+			}
+			_ = s.srv.DidChange(s.ctx, &protocol.DidChangeTextDocumentParams{
+				TextDocument:   protocol.VersionedTextDocumentIdentifier{TextDocumentIdentifier: protocol.TextDocumentIdentifier{URI: u}, Version: 2},
+				ContentChanges: []protocol.TextDocumentContentChangeEvent{ch}})
+			s.cl.wait()
+			if got, _ := s.srv.GetDocument(u); got != f.Buf {
+				panic("c09: ranged line insertion did not yield the buffer")
+			}
 		case "changed-ranged":
 			// replace the whole document by a ranged change (start 0:0, end past the last line)
 			_ = s.srv.DidChange(s.ctx, &protocol.DidChangeTextDocumentParams{
